@@ -97,6 +97,91 @@ def run_real(jobs, nproc=8):
     return out
 
 
+
+class WorkerPool(object):
+    """process pool that survives crashing workers (segfault / stack overflow in a mutated tree) and enforces
+    a hard wall-clock limit per template; a lost template is reported as an error, never as a verdict"""
+
+    def __init__(self, n):
+        self.ctx = multiprocessing.get_context('fork')
+        self.n = n
+        self.workers = []
+
+    @staticmethod
+    def _serve(conn):
+        from vlib import symworker
+        symworker.init()
+        while True:
+            try:
+                job = conn.recv()
+            except EOFError:
+                return
+            if job is None:
+                return
+            conn.send(symworker.run_template(job))
+
+    def _spawn(self):
+        a, b = self.ctx.Pipe()
+        p = self.ctx.Process(target=WorkerPool._serve, args=(b,), daemon=True)
+        p.start()
+        b.close()
+        return {'p': p, 'conn': a, 'job': None, 'idx': None, 't0': 0}
+
+    def map(self, jobs):
+        from multiprocessing.connection import wait
+        results = [None] * len(jobs)
+        todo = list(range(len(jobs)))
+        while len(self.workers) < min(self.n, max(1, len(jobs))):
+            self.workers.append(self._spawn())
+        done = 0
+        while done < len(jobs):
+            for w in self.workers:
+                if w['job'] is None and todo:
+                    i = todo.pop(0)
+                    w['job'], w['idx'], w['t0'] = jobs[i], i, time.time()
+                    w['conn'].send(jobs[i])
+            busy = [w for w in self.workers if w['job'] is not None]
+            ready = wait([w['conn'] for w in busy], timeout=2.0)
+            for w in busy:
+                lost = None
+                if w['conn'] in ready:
+                    try:
+                        results[w['idx']] = w['conn'].recv()
+                        w['job'] = None
+                        done += 1
+                        continue
+                    except (EOFError, OSError):
+                        lost = 'worker process died while exploring this template (crash or stack overflow in the code under analysis)'
+                elif not w['p'].is_alive():
+                    lost = 'worker process died while exploring this template (crash or stack overflow in the code under analysis)'
+                elif time.time() - w['t0'] > w['job'].get('deadline', 60) * 2 + 90:
+                    lost = 'hard wall-clock limit exceeded'
+                if lost:
+                    t = w['job']['t']
+                    results[w['idx']] = {'name': t['name'], 'prop': t['prop'], 'fn': t['fn'], 'params': t['params'], 'exclude': list(w['job'].get('exclude', ())),
+                                         'status': 'error', 'error': lost, 'paths': 0, 'verified': 0, 'vacuous': 0, 'aborted': 0, 'reasons': [], 'forks': 0,
+                                         'decisions': 0, 'q_sat': 0, 'q_unsat': 0, 'q_unknown': 0, 'solver_s': 0.0, 'functions': [], 'witnesses': [], 'cex': None,
+                                         'wall_s': round(time.time() - w['t0'], 2)}
+                    done += 1
+                    try:
+                        w['p'].kill()
+                    except Exception:
+                        pass
+                    self.workers[self.workers.index(w)] = self._spawn()
+        return results
+
+    def close(self):
+        for w in self.workers:
+            try:
+                w['conn'].send(None)
+            except Exception:
+                pass
+        for w in self.workers:
+            w['p'].join(timeout=2)
+            if w['p'].is_alive():
+                w['p'].kill()
+
+
 def load_findings(prop):
     p = os.path.join(HERE, 'known_findings.json')
     if not os.path.exists(p):
@@ -155,7 +240,7 @@ def main(argv):
     deadline = getattr(mod, 'DEADLINE', {'quick': 90, 'thorough': 900})[tier]
     wcap = {'quick': 3, 'thorough': 12}[tier]
     from vlib import symworker
-    pool = multiprocessing.get_context('fork').Pool(processes=jobs_n, initializer=symworker.init)
+    pool = WorkerPool(jobs_n)
     results = {}
     pending = [{'t': t, 'deadline': deadline, 'exclude': [], 'witness_cap': wcap, 'seed': seed} for t in ts]
     tmpl = dict((t['name'], t) for t in ts)
@@ -168,7 +253,7 @@ def main(argv):
     try:
         while pending and rounds < 8:
             rounds += 1
-            got = pool.map(symworker.run_template, pending, chunksize=1)
+            got = pool.map(pending)
             pending = []
             cexjobs = []
             for r in got:
@@ -211,7 +296,6 @@ def main(argv):
                     r['reasons'] = ['replay of counterexample: %s %s' % (rr['status'], rr.get('err', ''))]
     finally:
         pool.close()
-        pool.join()
     # ---- differential validation of path witnesses on the real stack
     wjobs = []
     for name, r in results.items():
@@ -306,15 +390,16 @@ def main(argv):
         },
         'assumptions': COMMON_ASSUMPTIONS + list(getattr(mod, 'ASSUMPTIONS', [])),
     }
-    os.makedirs(os.path.join(HERE, 'evidence'), exist_ok=True)
-    json.dump(ev, open(os.path.join(HERE, 'evidence', prop + '.json'), 'w'), indent=1, sort_keys=True, default=str)
+    evdir = os.environ.get('VERIF_EVIDENCE_DIR') or os.path.join(HERE, 'evidence')
+    os.makedirs(evdir, exist_ok=True)
+    json.dump(ev, open(os.path.join(evdir, prop + '.json'), 'w'), indent=1, sort_keys=True, default=str)
     print("%s %s: %d templates, %d confirmed, %d known-finding, %d inconclusive, %d violations; %d paths, %d witnesses validated on real stack, solver %.1fs, wall %.1fs"
           % (prop, tier, len(results), len(confirmed), n_known, len(inconclusive), len(violations), agg['paths'], validated, agg['solver_s'], wall))
     return 1 if violations else 0
 
 
 def write_replay(prop, t, cex, rr, origin):
-    d = os.path.join(HERE, 'replays')
+    d = os.environ.get('VERIF_REPLAY_DIR') or os.path.join(HERE, 'replays')
     os.makedirs(d, exist_ok=True)
     path = os.path.join(d, "%s-%s.json" % (prop, t['name'].replace('/', '_')))
     json.dump({'prop': prop, 'mod': t['mod'], 'fn': t['fn'], 'name': t['name'], 'params': t['params'], 'inputs': cex['inputs'],
